@@ -215,7 +215,7 @@ def contracts(repo):
     # a member that fails is answered inside the bundle with its own failure status: no exception of a member's store escapes Logix.request
     return [produce_request_spec(), produce_reply_spec(), router_request_spec(), closure_spec(),
             Custom('lemma', split_lemma, note='induction behind the prefix/suffix split used by the closure contract'),
-            Custom('status_after_store', _C05.status_after_store, replay=_C05.replay_status_order,
+            Custom('status_after_store', _C05.status_after_store, replay=_C05.replay_status_order, targets=[('server/enip/logix.py', 'Logix.request')],
                    note='ordering condition on the AST of Logix.request (shared with C05): failure status before the range computation, no success status before the store')]
 
 
@@ -305,7 +305,7 @@ LEVEL_NOTE = ('ASSUMED: member request() never raises and touches only its recor
               'every Object); route() -> None or raises; EPATH.produce/status.produce opaque here (C01). The closure contract is a FRAGMENT: '
               'the parser run per slice and dfa_post deferral are not verified. Client-side issue()/enip_replies unbundling: bounded only.')
 TECHNIQUE = 'loop invariants over prefix-sum ghost functions on Message_Router.produce/request and the parser closure fragment, VCs from the real AST, z3/cvc5; bounded bundle-vs-singles comparison'
-TRUSTED = ['assumed member request() contract; route(); EPATH.produce / status.produce as opaque byte strings', 'T9 closure fragment']
+TRUSTED = ['status_after_store shared with C05: AST-decided ordering condition (sufficient, syntactic)', 'assumed member request() contract; route(); EPATH.produce / status.produce as opaque byte strings', 'T9 closure fragment']
 ASSUMPTIONS = ['2 + 2N + total member length <= 65535 (UINT offsets)', 'single thread']
 
 
